@@ -273,12 +273,15 @@ func c10Nontrivial(r *Recorder, rp *Replay) {
 func init() {
 	defer func() {
 		// a replay that carries a fuzz input (engine F) is re-run through the fuzz target
-		base := Defs["C06"].Run
-		Defs["C06"].Run = func(tools *pipeline.Tools, r *Recorder, rp *Replay) (string, error) {
-			if _, ok := rp.Extra["fuzz_input"]; ok {
-				return runFuzzInput(tools, r, rp, "C06")
+		for prop := range FuzzProps {
+			prop := prop
+			base := Defs[prop].Run
+			Defs[prop].Run = func(tools *pipeline.Tools, r *Recorder, rp *Replay) (string, error) {
+				if _, ok := rp.Extra["fuzz_input"]; ok {
+					return runFuzzInput(tools, r, rp, prop)
+				}
+				return base(tools, r, rp)
 			}
-			return base(tools, r, rp)
 		}
 	}()
 	simpleInner("C02", 150, nil)
